@@ -664,6 +664,7 @@ func genHistory(rng *rand.Rand, n int, api bool, hang bool) []gcmd {
 	for i := 0; i < n; i++ {
 		c := genCmd(rng, api, false)
 		if i == hangAt {
+			c = genCmd(rng, api, true)
 			for c.sx.L[0].S != "gridn" || c.evy == "grid" {
 				c = genCmd(rng, api, true)
 			}
@@ -950,6 +951,9 @@ func c19CaseSX(cmds []SX, in c19Input, model *Model, r *Result) {
 		return
 	}
 	hangExpected := cmdsHang(cmds)
+	if os.Getenv("C19_DEBUG") != "" && in.Mode == "hang" {
+		fmt.Fprintf(os.Stderr, "hang case: expected=%v model=%v %s\n", hangExpected, m.Hang, in.Case)
+	}
 	if m.Hang != hangExpected {
 		r.Violate(Violation{Kind: "correspondence", Key: "model-hang-class", Detail: fmt.Sprintf("model hang=%v, history has a gridn unit <= 0: %v", m.Hang, hangExpected), Input: in})
 		return
